@@ -12,4 +12,5 @@ for P in "$@"; do
   grep -E "VIOLATION" /tmp/seed_${NAME}_$P.log | head -3
 done
 git -C /repo checkout -- .
+(cd /verif/harness && CARGO_NET_OFFLINE=true cargo build --quiet 2>/dev/null)
 git -C /repo status --short | head -3
